@@ -8,6 +8,14 @@ def n(q, t):
 
 
 CHECKS = {
+    "C05": dict(
+        level="proof",
+        campaigns=[dict(engine="ip", n=n(100000, 5000000))],
+        trusted_base=["model Model/IP.lean of net.IP predicates (Go toolchain) and net/private_net.go, tied by the `ip` differential campaign",
+                      "Gen/PrivateNets.lean regenerated from the CIDR literals of net/private_net.go"],
+        assumptions=["hostname resolution is an oracle (cannot be exercised offline): the theorems quantify over every resolver answer",
+                     "net.Dialer calls Control with the literal address of every connection attempt (Go runtime contract)"],
+    ),
     "C07": dict(
         level="proof",
         campaigns=[dict(engine="replay", n=n(1500, 30000), args={"ops": 200})],
